@@ -95,6 +95,13 @@ def cases(rng, tier):
                 c["key"] = key[:rng.randint(1, N)] if rng.random() < 0.25 else key
         if op in ("round_tt", "round_tucker", "construct_r"):
             c["rmax"] = rng.choice([1, 1, 2, 3])
+        if op in ("round_tt", "round_tucker"):
+            # both algorithms, and small-magnitude data (the Gram path squares the scale)
+            c["alg"] = rng.choice(["svd", "svd", "eig", "eig"])
+            c["scale"] = rng.choice([1.0, 1.0, 1e-6])
+            if rng.random() < 0.4 and stream == "float":
+                # a sum of two batch tensors: ranks above mode size x right rank (tall unfoldings)
+                c["plus"] = [e.to_json() for e in gen_batch(rng, B, shape, cls, stream)]
         if op == "orth":
             c["mu"] = rng.randint(0, N - 1)
         if op == "guard":
@@ -170,11 +177,26 @@ def run_case(ctx, case):
             ctx.oracle("batch %s raised %s: %s" % (op, r[1], r[2]), case, cls=cls); return
         per_elem(ctx, case, "batch %s %r" % (op, c), r[1], [d * c if op == "smul" else d + c for d in dens], cls=cls); return
     if op in ("round_tt", "round_tucker"):
-        r = safe(lambda: getattr(tn, op)(bt, rmax=case["rmax"]))
+        alg, sc = case.get("alg", "svd"), case.get("scale", 1.0)
+        bt2, els = bt, [x.to_tn() for x in xs]
+        if case.get("plus") is not None:
+            ys = [PT.from_json(j) for j in case["plus"]]
+            bt2 = bt + to_batch(ys)
+            els = [a_ + y.to_tn() for a_, y in zip(els, ys)]
+        if sc != 1.0:
+            bt2 = bt2 * sc
+            els = [e_ * sc for e_ in els]
+        ctx.count("round:alg=%s,scale=%g%s" % (alg, sc, ",sum" if case.get("plus") is not None else ""))
+        r = safe(lambda: getattr(tn, op)(bt2, rmax=case["rmax"], algorithm=alg))
         if r[0] == "err":
+            if alg == "eig":
+                ctx.count("batch %s with algorithm='eig' raised %s (an error is allowed where batches are not supported)" % (op, r[1])); return
             ctx.oracle("batch %s raised %s: %s" % (op, r[1], r[2]), case, cls=cls); return
-        ref = [getattr(tn, op)(x.to_tn(), rmax=case["rmax"], eps=0).torch().numpy() for x in xs]
-        per_elem(ctx, case, "batch %s(rmax=%d)" % (op, case["rmax"]), r[1], ref, 1e-6, cls=cls)
+        ref = [getattr(tn, op)(e_, rmax=case["rmax"], eps=0, algorithm=alg).torch().numpy() / sc for e_ in els]
+        rs = safe(lambda: r[1] * (1.0 / sc))
+        if rs[0] == "err":
+            ctx.oracle("batch %s: result cannot be rescaled: %s" % (op, rs[2]), case, cls=cls); return
+        per_elem(ctx, case, "batch %s(rmax=%d, algorithm=%s, scale=%g)" % (op, case["rmax"], alg, sc), rs[1], ref, 1e-6, cls=cls)
         rk = r[1].ranks_tt if op == "round_tt" else r[1].ranks_tucker
         if int(max(rk[1:-1] if op == "round_tt" else rk)) > case["rmax"] and op == "round_tt":
             ctx.oracle("batch round_tt left a rank above rmax: %s" % list(rk), case, cls=cls)
